@@ -23,7 +23,7 @@ RULE = ("E1 x fault sequences: accounts (built-in per region, custom with '+@_')
         "verifies signature, constant fields, time stamp, login-id/password derivation and session id of EVERY request. Oracle: no "
         "request rejected by the server; attempts per request as the retry contract says; (token,key) of the exact match only; "
         "failures are CloudError. Discover.discover(auto_connect=True) against a simulated V3 device whose credentials are "
-        "registered under the little- or big-endian udpid, also as the second discovery of a process with another region / account / a rotated session (ids include some whose udpid starts or ends with a zero byte) must end authenticated with them. non-trivial = every flow")
+        "registered under the little- or big-endian udpid, three devices at once in every mix of byte orders and rejection styles, also as the second discovery of a process with another region / account / a rotated session (ids include some whose udpid starts or ends with a zero byte) must end authenticated with them. non-trivial = every flow")
 ASSUMPTIONS = ["the reference server encodes the NetHome Plus contract as implemented by known-working clients (sign = sha256(path + "
                "sorted query + app key), password = sha256(loginId + sha256(pw) + app key))",
                "like the real cloud, the server answers an unregistered udpid with an entry that the device will not accept"]
@@ -46,6 +46,7 @@ def shards(tier):
     out += [("discover", i, 0) for i in range(4)]
     out += [("discover2", i, 0) for i in range(len(PATTERNS))]
     out += [("discover3", i, 0) for i in range(4)]
+    out += [("discover4", i, 0) for i in range(4)]
     return out
 
 
@@ -200,6 +201,8 @@ def run_shard(shard, tier) -> Stats:
         run_discover2(st, a)
     elif kind == "discover3":
         run_discover3(st, a)
+    elif kind == "discover4":
+        run_discover4(st, a)
     else:
         run_discover(st, a)
     st.reruns += det.reruns
@@ -271,6 +274,53 @@ def special_ids():
                 _SPECIAL.append(next(d for d in range(0x0000_7000_0000_0001, 0x0000_7000_0010_0000)
                                      if test(rc.udpid(d.to_bytes(6, endian)))))
     return tuple(_SPECIAL)
+
+
+def run_discover4(st: Stats, variant: int):
+    """Three V3 devices authenticated concurrently by one discovery: every mix of byte orders, and of devices that reject the
+    wrong-order credentials at once / only by not answering (so that the attempts of different devices overlap in time)."""
+    from itertools import product
+    combos = list(product(("little", "big"), repeat=3))
+    for ci, endians in enumerate(combos):
+        if ci % 4 != variant:
+            continue
+        for unknowns in (("error", "silent", "error"), ("silent", "error", "silent"), ("silent", "silent", "silent")):
+            w = World()
+            acc = ACCOUNTS[(ci + variant) % len(ACCOUNTS)]
+            region, account, password = creds_for(acc)
+            regs, devs, hosts = [], [], []
+            for k in range(3):
+                did = 0x0000_0D0D_0000_0001 + k
+                token, key = filler(f"c19/4t{k}", 64), filler(f"c19/4k{k}", 32)
+                regs.append({"udpId": udpid_hex(did, endians[k]), "token": token.hex(), "key": key.hex()})
+                ip = f"10.3.3.{k + 7}"
+                dev = SimDevice(version=3, token=token, key=key, device_id=did, ac=RefAC({"temp": 20.0 + k}))
+                dev.unknown_token = unknowns[k]
+                w.net.listen(ip, 6444, dev)
+                hosts.append(sd.Host(ip, sd.reply(3, did, ip, 6444, "S" * 32, f"net_ac_00C{k}")))
+                devs.append((did, token, key))
+            srv = RefCloud(account, password, regs, now_stamp=stamp(w), bogus_for_unknown=True)
+            w.net.udp_responder = sd.Population(hosts)
+            case = {"kind": "discover4", "variant": variant, "endians": list(endians), "unknown_token": list(unknowns), "account": list(acc)}
+            try:
+                out = w.run(Discover.discover(region=region, account=acc[1], password=acc[2], auto_connect=True,
+                                              get_async_client=srv.client_factory()))
+                prob = None
+                if check_server(st, case, srv, "discover4"):
+                    prob = "rejected"
+                elif out[0] != "ok":
+                    prob = f"discover raised {type(out[1]).__name__}"
+                else:
+                    got = sorted((d.id, d.token, d.key) for d in out[1])
+                    want = sorted((did, t.hex(), k_.hex()) for did, t, k_ in devs)
+                    if got != want:
+                        bad = [g[0] for g in got if g not in want]
+                        prob = f"devices not authenticated with their registered credentials: {[hex(b) for b in bad]}"
+                if prob and prob != "rejected":
+                    st.violation("discover4: " + prob.split(":")[0], case, "every device authenticated with the credentials of either byte order", prob)
+                st.ev(("disc4", endians, unknowns), "ok" if not prob else "failed", True)
+            finally:
+                w.close()
 
 
 def run_discover3(st: Stats, variant: int):
@@ -386,7 +436,9 @@ def replay(case):
         lst = dict((l, t) for l, t, _ in token_lists(udpid))[case["list"]]
         out, srv = run_flow(tuple(case["account"]), {}, lst, udpid)
         return {"outcome": str(out)[:200], "server_problems": srv.problems}
-    if case["kind"] == "discover3":
+    if case["kind"] == "discover4":
+        run_discover4(st, case["variant"])
+    elif case["kind"] == "discover3":
         run_discover3(st, case["variant"])
     elif case["kind"] == "discover2":
         for i in range(len(PATTERNS)):
